@@ -169,7 +169,10 @@ fn main() {
         let date = *r.pick(&["2000-01-01", "2025-03-13", "unknown"]);
         let program = ProgramData { version: ver.to_owned(), build_commit: commit.to_owned(), build_commit_date: date.to_owned(), uptime_seconds: up };
         let up_json = serde_json::to_string(&up).unwrap();
-        let up_disp = format!("{}", up);
+        // what the exporter will publish: the number after serde_json's float parser (the only
+        // f64 of the state; serde_json without `float_roundtrip` may be off by one ulp)
+        let up_seen: f64 = serde_json::from_str(&up_json).unwrap();
+        let up_disp = format!("{}", up_seen);
         // ---------------- default_ds
         let (q, qt) = gen_quality(r);
         let p1 = *r.pick(&[0u8, 1, 127, 128, 255]);
@@ -292,8 +295,8 @@ fn main() {
         );
         let big = |b: i128| if b == 0 { "0" } else if b.unsigned_abs() >> 63 == 0 { "s" } else { "L" };
         let class = format!(
-            "{}:p{}:pt{}:off{}{}:utc{}{}{}{}:{}",
-            role, nports.min(9), match plen { 0 => "0".to_owned(), 128 => "max".to_owned(), n if n < 4 => format!("{}", n), _ => "n".to_owned() },
+            "{}{}:p{}:pt{}:off{}{}:utc{}{}{}{}:{}",
+            role, if up_seen != up { "~ulp" } else { "" }, nports.min(9), match plen { 0 => "0".to_owned(), 128 => "max".to_owned(), n if n < 4 => format!("{}", n), _ => "n".to_owned() },
             if off_bits < 0 { "-" } else { "+" }, big(off_bits),
             utc.is_some() as u8, tt as u8, ft as u8, pt as u8, states_seen
         );
